@@ -259,6 +259,22 @@ package tchannel
 //@             err.(errorMessage).message == bytestr(frameAt(lastRecv(mex)).Payload[28:28+be16(frameAt(lastRecv(mex)).Payload, 26)])
 //@   property C20
 
+// The caller-side reader reports a failure only after it has consulted the
+// exchange's frame queue in this call: recvPeerFrameOfType gives frames that
+// were already received (e.g. the handler's error frame) priority over a later
+// connection failure, and nothing in the reader may short-cut that order.
+//@ ghostfield nwaits
+//@ func (mex *messageExchange) recvPeerFrameOfType(msgType messageType) (f *Frame, err error)
+//@   defines nwaits(mex) == old(nwaits(mex)) + 1
+//@   property C20
+//@ func (r *reqResReader) recvNextFragment(initial bool) (fragment *readableFragment, err error)
+//@   nosafety
+//@   requires r.mex != nil && MexOK(r.mex) && r.messageForFragment != nil
+//@   modifies all
+//@   label reader-fails-only-after-consulting-the-frame-queue
+//@   atcall failed nwaits(old(r.mex)) == old(nwaits(r.mex)) + 1
+//@   property C20
+
 // The message interface: clauses added to the contracts in verif_contracts.go
 // (conjoined). mtype(m) names the (constant) type code of a message value. The
 // facts about *errorMessage are the contracts proved on (*errorMessage).write /
